@@ -188,6 +188,16 @@ class VFile:
         return "".join(self.lines).splitlines(True)
 
 
+class BytesVal:
+    """ndarray.tobytes(): the raw contents as a value -- equal contents <=> equal value; np.frombuffer recovers them."""
+
+    def __init__(self, vals):
+        self.vals = list(vals)
+
+    def key(self):
+        return ("bytes", tuple(x.key() if isinstance(x, Poly) else repr(x) for x in self.vals))
+
+
 class BoolArr:
     """Result of an element-wise comparison of arrays (each entry already decided on this path)."""
 
@@ -493,6 +503,25 @@ class Interp:
         k = pkg.lookup(clsname, "__init__")
         if k is not None and k[0] == "method":
             self.call_function(k[1][0], [obj] + list(args), kw)
+        elif pkg.classes[clsname].annotations and (args or kw or True):
+            # NamedTuple / dataclass style: positional and keyword arguments fill the annotated fields in order
+            ci = pkg.classes[clsname]
+            names = list(ci.annotations)
+            if len(args) > len(names):
+                raise PathRaise("TypeError(too many arguments for %s)" % clsname, "constructor")
+            for nm, v in zip(names, args):
+                obj.fields[nm] = v
+            for nm, v in (kw or {}).items():
+                if nm not in names:
+                    raise PathRaise("TypeError(unexpected field %s)" % nm, "constructor")
+                obj.fields[nm] = v
+            for nm in names:
+                if nm not in obj.fields:
+                    if nm in ci.consts:
+                        obj.fields[nm] = self.ev(ci.consts[nm], {})
+                    else:
+                        raise PathRaise("TypeError(missing field %s)" % nm, "constructor")
+            obj.tuple_fields = names if any("NamedTuple" in b or "namedtuple" in b for b in ci.bases) else None
         elif args or kw:
             raise Unsupported("constructor arguments without __init__ for %s" % clsname)
         return obj
@@ -626,6 +655,10 @@ class Interp:
     def iterate(self, v, node):
         if isinstance(v, (list, tuple)):
             return list(v)
+        if isinstance(v, Obj) and getattr(v, "tuple_fields", None):
+            return [v.fields[k] for k in v.tuple_fields]
+        if isinstance(v, BytesVal):
+            return list(v.vals)
         if isinstance(v, VFile):
             return v.text_lines()
         if isinstance(v, IndexSet):
@@ -778,6 +811,8 @@ class Interp:
             return v
         if isinstance(v, ClassRef):
             return v
+        if isinstance(v, BytesVal):
+            return v.key()
         raise self.unsupported("unhashable key %r" % (v,), node)
 
     # ------------------------------------------------------------------------------------ truth
@@ -1034,6 +1069,8 @@ class Interp:
             return all(self.equal(a, b, node) for a, b in zip(l, r))
         if isinstance(l, ClassRef) and isinstance(r, ClassRef):
             return l.name == r.name
+        if isinstance(l, BytesVal) and isinstance(r, BytesVal):
+            return l.key() == r.key()       # bit patterns: different symbols are treated as different (a miss recomputes, which is always right)
         if isinstance(l, (set, frozenset)) and isinstance(r, (set, frozenset)):
             return set(l) == set(r)
         if isinstance(l, str) and isinstance(r, str):
@@ -1057,6 +1094,8 @@ class Interp:
             return self.dot(a, b, n)
         if isinstance(a, bool) and isinstance(b, bool) and op in (ast.BitXor, ast.BitAnd, ast.BitOr):
             return {ast.BitXor: a ^ b, ast.BitAnd: a & b, ast.BitOr: a | b}[op]
+        if isinstance(a, BytesVal) and isinstance(b, BytesVal) and op is ast.Add:
+            return BytesVal(a.vals + b.vals)
         if isinstance(a, str) and op is ast.Add and isinstance(b, str):
             return a + b
         if isinstance(a, str) and op is ast.Mult and isinstance(b, Poly) and b.const_value() is not None:
@@ -1427,8 +1466,7 @@ class Interp:
             if a in ("real",):
                 return v
             if a in ("tobytes", "tostring"):
-                import hashlib as _h
-                return Opaque("callable", (lambda v=v: "bytes:" + _h.sha1(repr(sorted((tuple(m), str(c)) for m, c in v.t.items())).encode()).hexdigest() + ";"))
+                return Opaque("callable", (lambda v=v: BytesVal([v])))
             if a == "item":
                 return Opaque("callable", (lambda v=v: v))
         if isinstance(v, VFile):
@@ -1655,6 +1693,10 @@ class Interp:
                 return self.call_function(self.pkg.funcs[f.payload[0]], args)
             if f.kind == "callable":
                 return f.payload[0](*args)
+            if f.kind == "pymeth":
+                return self.py_method(f.payload[0], f.payload[1], list(args), {}, n)
+            if f.kind == "arrmeth":
+                return self.arr_method(f.payload[0], f.payload[1], list(args), {}, n)
         if callable(f):
             return f(*args)
         raise self.unsupported("call of value %r" % (f,), n)
@@ -1708,10 +1750,7 @@ class Interp:
         if name in ("tocsr", "tocsc", "tolil", "todense", "toarray", "tocoo", "squeeze", "conj", "conjugate", "__array__"):
             return v
         if name in ("tobytes", "tostring"):
-            # the raw contents as an opaque, hashable value: equal contents <=> equal value
-            import hashlib as _h
-            return "bytes:" + _h.sha1(repr([sorted((tuple(m), str(c)) for m, c in x.t.items()) if isinstance(x, Poly) else repr(x)
-                                            for x in v.flat()]).encode()).hexdigest() + ";"
+            return BytesVal(v.flat())
         if name in ("setflags", "eliminate_zeros", "sum_duplicates"):
             return None
         if name == "all":
@@ -2312,6 +2351,8 @@ class Interp:
                 return [Arr([[Poly.const(i) for _ in range(c_)] for i in range(r_)], 2), Arr([[Poly.const(j) for j in range(c_)] for _ in range(r_)], 2)]
             if len(dims) == 1:
                 return [Arr([Poly.const(i) for i in range(dims[0])], 1)]
+        if name == "frombuffer" and isinstance(args[0], BytesVal):
+            return Arr([self.scalar(x, n) for x in args[0].vals], 1)
         if name == "fromiter":
             self.check_dtype(kw, n, list(self.iterate(args[0], n)))
             return self.to_arr(list(self.iterate(args[0], n)), n)
